@@ -13,7 +13,7 @@ func init() {
 	register("C12", &propDef{
 		Title: "Failures are reported, never turned into silently partial results",
 		Rules: []func(*Checker){ruleRefusalsAreIllegalSlug("C12.refusals"), ruleTracerFromCallContext("C12.tracerctx"), ruleWrapKeepsChain("C12.wrapverb", "slug", "unpackinfo"), ruleC12Errors, ruleC12Illegal, ruleC12Whole, ruleC12Poison, ruleC12Closed, ruleC12Manifest, ruleC12Diags, ruleC12DiagCopy, ruleRootLink("C12.rootlink"), ruleTraceCalls("C12.calls"), ruleLockBalanced("C12.balanced"), ruleC12DiagSource, ruleFilesClosed("C12.closed"), ruleWritersClosed("C12.writers"), ruleWalkErrParam("C12.walkerr"), ruleBundleWalkChain("C12.bundlechain"),
-			ruleLiteralAgreement("C12.fields", "sourcebundle", func(n string) bool { return strings.Contains(n, "iagnostic") }), ruleDiagsReachResult("C12.diagresult"), ruleNoSingleMember("C12.multistream")},
+			ruleLiteralAgreement("C12.fields", "sourcebundle", func(n string) bool { return strings.Contains(n, "iagnostic") }), ruleDiagsReachResult("C12.diagresult"), ruleNoSingleMember("C12.multistream"), ruleEachRangeOnItsOwn("C12.rangeseach")},
 		NotDecided: []string{
 			"behaviour at a given byte offset; what archive/tar and compress/gzip report on truncation (library)",
 			"which error text is produced",
